@@ -114,6 +114,7 @@ type vfC22Env struct {
 	secret []byte
 	nonceN int
 
+	caller string // space 2: value of the caller header on every request sent ("" = none => rejected)
 	decor int // test-phase request decoration: 0 none, 1 Authorization: Bearer, 2 PKCE auth cookie
 
 	cursor, call string // continuation tokens minted in the setup phase
@@ -121,6 +122,8 @@ type vfC22Env struct {
 }
 
 var vfC22ProofNow = time.Unix(1_700_000_000, 0)
+
+const vfC22CallerHeader = "X-Vf-Caller"
 
 const (
 	vfC22MarkerMethod = "vfunary"
@@ -200,6 +203,13 @@ func vfC22Build(x *venum.X, mask, proof int, prefix string, kind vfC22Kind) (*vf
 	}
 	var auth AuthenticateFunc = func(r *http.Request) (*AuthContext, error) {
 		c.authCalls++
+		// Space 2 (histories): the caller is decided per request from a header.
+		switch r.Header.Get(vfC22CallerHeader) {
+		case "intro":
+			return &AuthContext{Domain: "vf", Authenticated: true, Principal: "intro"}, nil
+		case "anon":
+			return Anonymous(), nil
+		}
 		if e.phase == "setup" || e.kind.mk == nil {
 			return e.setupID, nil
 		}
@@ -256,6 +266,9 @@ func (e *vfC22Env) do(method, path string, body []byte, hdr ...string) (*httptes
 			panic("C22 harness: MintProof: " + err.Error())
 		}
 		all = append(all, ProofHeader, tok)
+	}
+	if e.caller != "" {
+		all = append(all, vfC22CallerHeader, e.caller)
 	}
 	if e.phase == "test" {
 		switch e.decor {
@@ -605,7 +618,6 @@ func TestVerif_C22(t *testing.T) {
 			return
 		}
 		code := rec.Code
-		body := rec.Body.String()
 		live := rt.needs(e)
 
 		if !e.rejecting() {
@@ -623,54 +635,166 @@ func TestVerif_C22(t *testing.T) {
 		}
 
 		// ---- the authenticator rejects ----
-		if len(ev) != 0 {
-			x.Failf(sig+":user-code-ran", "user code ran under a rejecting authenticator (%s): %v (status %d)", kind.name, vfEventStringsOf(ev), code)
-		}
-		if d.provider != 0 {
-			x.Failf(sig+":provider-ran", "upload-URL provider invoked %d times under a rejecting authenticator (%s); status %d", d.provider, kind.name, code)
-		}
-		if d.resolver != 0 {
-			x.Failf(sig+":resolver-ran", "introspection resolver invoked %d times under a rejecting authenticator (%s); status %d", d.resolver, kind.name, code)
-		}
-		if d.rehydrate != 0 {
-			x.Failf(sig+":rehydrate-ran", "rehydrate func invoked %d times under a rejecting authenticator (%s); status %d", d.rehydrate, kind.name, code)
-		}
-		if d.hookStart != 0 {
-			x.Failf(sig+":hook-ran", "dispatch hook started %d times under a rejecting authenticator (%s); status %d", d.hookStart, kind.name, code)
-		}
-		if d.custom != 0 && !rt.mayCustom {
-			x.Failf(sig+":custom-handler-ran", "a custom handler ran for a request that does not address it")
-		}
-		if d.sessClose != 0 && !rt.maySessClose {
-			x.Failf(sig+":session-closed", "a session state was closed by a rejected request")
-		}
-		for _, marker := range []string{vfC22MarkerMethod, vfC22MarkerURL, vfC22MarkerPrinc} {
-			if (rt.class == "rpc" || rt.class == "control") && strings.Contains(body, marker) {
-				x.Failf(sig+":reveals", "rejected request's response body contains %q (status %d)", marker, code)
-			}
-		}
-		switch rt.class {
-		case "rpc":
-			if code != 401 && code != 503 && code != 500 {
-				x.Failf(sig+":status", "RPC route answered %d under a rejecting authenticator (%s), want 401/503/500", code, kind.name)
-			}
-		case "control":
-			if live && code != 401 && code != 503 && code != 500 {
-				x.Failf(sig+":status", "control route answered %d under a rejecting authenticator (%s), want 401/503/500", code, kind.name)
-			}
-		case "open":
-			if live && rt.openStatus != nil && !vfC22IntIn(code, rt.openStatus) {
-				x.Failf(sig+":not-reachable", "route listed as reachable without authentication answered %d (want %v) under a rejecting authenticator (%s)", code, rt.openStatus, kind.name)
-			}
-			if live && rt.mayCustom && d.custom != 1 {
-				x.Failf(sig+":custom-not-reached", "custom route handler ran %d times", d.custom)
-			}
-		}
-		if code == 0 {
-			x.Failf(sig+":no-status", "no status written")
-		}
+		vfC22CheckRejected(x, sig, rt, e, rec, ev, d, kind.name, proof != 1)
 		x.Outcome("%s|%s|%d|live=%v|%+v", rt.class, rt.name, code, live, d)
 	})
+
+	// ------------------------------------------------------------------
+	// Space 2: two-request histories on ONE server. Request 1 comes from a
+	// caller the authenticator accepts (decided per request from a header),
+	// request 2 -- on the same or another RPC/control route -- from a caller
+	// it rejects. Anything request 1 leaves behind in the server (caches,
+	// tokens, sessions, lazily initialised state) must not let request 2
+	// through.
+	var guarded []vfC22Route
+	for _, r := range routes {
+		if r.class == "rpc" || r.class == "control" {
+			guarded = append(guarded, r)
+		}
+	}
+	type histCfg struct {
+		mask   int
+		prefix string
+	}
+	histCfgs := []histCfg{{7, ""}, {7, "/vgi"}, {15, ""}, {15, "/vgi"}}
+	var histKinds []vfC22Kind
+	for _, k := range kinds {
+		switch k.name {
+		case "rpc-ValueError", "unavailable", "plain-error":
+			histKinds = append(histKinds, k)
+		case "rpc-PermissionError", "failure-missing_credential":
+			if venum.Thorough() {
+				histKinds = append(histKinds, k)
+			}
+		}
+	}
+	venum.SetInfo("history_routes", fmt.Sprint(len(guarded)))
+	venum.Explore(t, venum.Cfg{Name: "accepted-then-rejected", Shardable: true}, func(x *venum.X) {
+		first := guarded[x.Choose(len(guarded), "route1(accepted)")]
+		second := guarded[x.Choose(len(guarded), "route2(rejected)")]
+		hc := histCfgs[x.Choose(len(histCfgs), "features+prefix")]
+		kind := histKinds[x.Choose(len(histKinds), "authenticator")]
+
+		vfResetEvents()
+		e, err := vfC22Build(x, hc.mask, 0, hc.prefix, kind)
+		if err != nil {
+			venum.EngineError("C22 history server setup: %v", err)
+			return
+		}
+		defer e.close()
+		e.phase = "test" // no caller header => rejected with kind
+		x.Note("mask=%d prefix=%q authenticator=%s: accepted %q then rejected %q", hc.mask, hc.prefix, kind.name, first.name, second.name)
+
+		// request 1: accepted caller "intro" (its setup requests too)
+		e.caller = "intro"
+		if first.setup != nil {
+			if err := first.setup(e); err != nil {
+				venum.EngineError("C22 history: setup of first route %q: %v", first.name, err)
+				return
+			}
+		}
+		ev0 := len(vfEvents)
+		rec1, pan1 := first.send(e)
+		if pan1 != nil {
+			x.Failf("C22:history:first:"+first.name+":panic", "panic on the accepted request: %v", pan1)
+			return
+		}
+		if first.needs(e) && first.live != nil && !first.live(e, rec1, vfEvents[ev0:]) {
+			venum.EngineError("C22 history liveness: accepted request on %q did not reach its target (status %d, counters %+v)", first.name, rec1.Code, *e.c)
+		}
+
+		// setup for request 2 is done by an accepted ANONYMOUS caller, so a
+		// "falls back to anonymous" defect can open the tokens it mints
+		e.caller = "anon"
+		if second.setup != nil {
+			if err := second.setup(e); err != nil {
+				venum.EngineError("C22 history: setup of second route %q: %v", second.name, err)
+				return
+			}
+		}
+		// request 2: no caller header => the authenticator rejects
+		e.caller = ""
+		before := *e.c
+		evBefore := len(vfEvents)
+		rec, pan := second.send(e)
+		ev := append([]VfEvent{}, vfEvents[evBefore:]...)
+		d := vfC22Counters{
+			provider: e.c.provider - before.provider, resolver: e.c.resolver - before.resolver,
+			rehydrate: e.c.rehydrate - before.rehydrate, hookStart: e.c.hookStart - before.hookStart,
+			custom: e.c.custom - before.custom, sessClose: e.c.sessClose - before.sessClose,
+			authCalls: e.c.authCalls - before.authCalls,
+		}
+		rel := "after-other-route"
+		if first.name == second.name {
+			rel = "after-same-route"
+		}
+		sig := "C22:history:" + rel + ":route:" + second.name
+		if pan != nil {
+			x.Failf(sig+":panic", "panic escaped ServeHTTP: %v", pan)
+			return
+		}
+		vfC22CheckRejected(x, sig, second, e, rec, ev, d, kind.name, true)
+		x.Outcome("%s|%d -> %s|%d|%+v", first.name, rec1.Code, second.name, rec.Code, d)
+	})
+}
+
+// vfC22CheckRejected is the oracle for one request sent by a caller the
+// authenticator rejects. consulted: demand that the configured authenticator
+// was actually invoked for RPC routes and enabled control routes (not when a
+// proof gate in front of it refuses first).
+func vfC22CheckRejected(x *venum.X, sig string, rt vfC22Route, e *vfC22Env, rec *httptest.ResponseRecorder, ev []VfEvent, d vfC22Counters, kindName string, consulted bool) {
+	code := rec.Code
+	body := rec.Body.String()
+	live := rt.needs(e)
+	if len(ev) != 0 {
+		x.Failf(sig+":user-code-ran", "user code ran under a rejecting authenticator (%s): %v (status %d)", kindName, vfEventStringsOf(ev), code)
+	}
+	if d.provider != 0 {
+		x.Failf(sig+":provider-ran", "upload-URL provider invoked %d times under a rejecting authenticator (%s); status %d", d.provider, kindName, code)
+	}
+	if d.resolver != 0 {
+		x.Failf(sig+":resolver-ran", "introspection resolver invoked %d times under a rejecting authenticator (%s); status %d", d.resolver, kindName, code)
+	}
+	if d.rehydrate != 0 {
+		x.Failf(sig+":rehydrate-ran", "rehydrate func invoked %d times under a rejecting authenticator (%s); status %d", d.rehydrate, kindName, code)
+	}
+	if d.hookStart != 0 {
+		x.Failf(sig+":hook-ran", "dispatch hook started %d times under a rejecting authenticator (%s); status %d", d.hookStart, kindName, code)
+	}
+	if d.custom != 0 && !rt.mayCustom {
+		x.Failf(sig+":custom-handler-ran", "a custom handler ran for a request that does not address it")
+	}
+	if d.sessClose != 0 && !rt.maySessClose {
+		x.Failf(sig+":session-closed", "a session state was closed by a rejected request")
+	}
+	for _, marker := range []string{vfC22MarkerMethod, vfC22MarkerURL, vfC22MarkerPrinc} {
+		if (rt.class == "rpc" || rt.class == "control") && strings.Contains(body, marker) {
+			x.Failf(sig+":reveals", "rejected request's response body contains %q (status %d)", marker, code)
+		}
+	}
+	switch rt.class {
+	case "rpc":
+		if code != 401 && code != 503 && code != 500 {
+			x.Failf(sig+":status", "RPC route answered %d under a rejecting authenticator (%s), want 401/503/500", code, kindName)
+		}
+	case "control":
+		if live && code != 401 && code != 503 && code != 500 {
+			x.Failf(sig+":status", "control route answered %d under a rejecting authenticator (%s), want 401/503/500", code, kindName)
+		}
+	case "open":
+		if live && rt.openStatus != nil && !vfC22IntIn(code, rt.openStatus) {
+			x.Failf(sig+":not-reachable", "route listed as reachable without authentication answered %d (want %v) under a rejecting authenticator (%s)", code, rt.openStatus, kindName)
+		}
+		if live && rt.mayCustom && d.custom != 1 {
+			x.Failf(sig+":custom-not-reached", "custom route handler ran %d times", d.custom)
+		}
+	}
+	if code == 0 {
+		x.Failf(sig+":no-status", "no status written")
+	}
+	if consulted && (rt.class == "rpc" || (rt.class == "control" && live)) && d.authCalls == 0 {
+		x.Failf(sig+":authenticator-not-consulted", "the configured authenticator was never invoked for this request (status %d)", code)
+	}
 }
 
 func vfC22IntIn(v int, set []int) bool {
